@@ -941,6 +941,7 @@ def analyse_new(pr, N, stats, sample_cells=None, numeric=True):
 # =====================================================================================================================
 ETA_C = 16.0          # safety factor on the first-order rounding-error estimate of a circumcentre
 ILL = 1e-3            # a cell is 'ill-conditioned' when the estimated volume error exceeds this fraction of its volume
+ILL_OLD = 1e-2        # same for the comparison with the tolerance based OldVoronoiGrid
 
 
 def real_ints(pr):
@@ -977,7 +978,7 @@ def numeric_oracle(pr, V, tag, cells, fnd, stats, geo_cache, old=False, flags=No
             # a plane can be displaced by eps/|r|, a vertex (intersection of three planes) by kappa times that
             eta += 4 * 2e-10 * L2 / geo["rmin_half"] * geo["kappa"]
         tolV = 4 * eta * geo["surface"] + 64 * U * geo["volume"]
-        ill = not (tolV <= ILL * geo["volume"])
+        ill = not (tolV <= (ILL_OLD if old else ILL) * geo["volume"])
         res[i] = (tolV, ill, eta)
         if not (vol > 0.0) or vol != vol or vol == math.inf:
             fnd.add("volume_sign", "%s cell %d: volume %r is not a positive finite number" % (tag, i, vol), cell=i)
@@ -1244,7 +1245,7 @@ def process(problems, impl, model, tier_quick, stats_all, log=None, cert_cap=Non
                     indomain = all(not t[1] for t in to.values())
                 else:
                     L2 = sum(x * x for x in pr["sides"])
-                    indomain = all(4 * (4 * 2e-10 * L2 / geo[i]["rmin_half"] * geo[i]["kappa"]) * geo[i]["surface"] <= ILL * geo[i]["volume"] for i in range(n))
+                    indomain = all(4 * (4 * 2e-10 * L2 / geo[i]["rmin_half"] * geo[i]["kappa"]) * geo[i]["surface"] <= ILL_OLD * geo[i]["volume"] for i in range(n))
                 st["old_compared"] = 1
                 if not old_ok:
                     if indomain:
@@ -1294,7 +1295,7 @@ def process(problems, impl, model, tier_quick, stats_all, log=None, cert_cap=Non
 
 
 # =====================================================================================================================
-# known defects of the pinned tree: probes (run only when a known_findings entry exists or C15_PROBES=1)
+# defect probes (always on; C15_PROBES=0 switches them off for experiments)
 # =====================================================================================================================
 def known_entries():
     p = os.path.join(vf.VERIF, "known_findings.json")
@@ -1305,9 +1306,8 @@ def known_entries():
 
 
 def probe_enabled(kind):
-    if os.environ.get("C15_PROBES", "") == "1":
-        return True
-    return any(k.get("match", {}).get("kind") == kind for k in known_entries())
+    """the defect probes always run: a listed finding is printed as KNOWN-FINDING by the driver, a fixed one must stay fixed"""
+    return os.environ.get("C15_PROBES", "1") != "0"
 
 
 HANG_INPUT = dict(anchor=(1e-3, 2e-3, -5e-4), sides=(1e-5, 3e-5, 2e-5),
@@ -1481,7 +1481,7 @@ def run(ck):
                     "corners %r), violating the precondition of ExactGeometricTests (which reads the 52-bit mantissas): predicates that fall back to exact arithmetic "
                     "and involve such a corner are evaluated on garbage; the construction can loop forever / read out of bounds" % (len(bad), nb, p["anchor"], p["sides"], [bd(x) for x in r["T"]]))
             if probe_enabled("rescaled_corner_out_of_range"):
-                ck.violation(what, pr_replay(p, {"kind": "rescaled_corner_out_of_range"}), key={"kind": "rescaled_corner_out_of_range"})
+                ck.violation(what, pr_replay(p, {"kind": "rescaled_corner_out_of_range"}), key={"kind": "rescaled_corner_out_of_range", "input": "precondition_sweep"})
             else:
                 ck.notes.append("NOT ENFORCED (no known_findings entry, C15_PROBES unset): " + what)
         # ---- probes of known defects --------------------------------------------------------------------------------
@@ -1489,6 +1489,10 @@ def run(ck):
     nK = stats.get("K_ok", 0)
     cov["evaluations"] = stats.get("certs", 0) + stats.get("bbpass", 0) + stats.get("lookups", 0)
     cov["distinct_nontrivial"] = stats.get("certs", 0)
+    # translation-validation keys: programs = outputs of the real classes (one tessellation per generator set and grid class) that were
+    # validated; disagreements = cells / lookups on which the exact verdict was not an outright pass and which were examined further
+    cov["programs"] = int(cov.get("generator_sets", 0)) + int(stats.get("old_compared", 0))
+    cov["disagreements_checked"] = int(stats.get("K_total", 0) - stats.get("K_ok", 0)) + int(stats.get("lookups_slack", 0)) + int(stats.get("witness_confirmed", 0)) + int(stats.get("eps_certified", 0))
     cov["cells_certified_by_extracted_checker"] = "%d of %d submitted" % (nK, stats.get("K_total", 0))
     cov["lookups"] = {"checked": stats.get("lookups", 0), "exact": stats.get("lookups_exact", 0), "within_rounding_slack": stats.get("lookups_slack", 0)}
     cov["statistics"] = {k: v for k, v in stats.items()}
@@ -1520,7 +1524,7 @@ def run_probes(ck, impl, model, cov):
         pr_done["hang"] = X
         if X:
             ck.violation("NewVoronoiGrid does not terminate / dies (%s) on 2 generators in the box anchor %r sides %r: a corner of the all-enclosing tetrahedron is outside [1,2) in the internal representation"
-                         % (X, p["anchor"], p["sides"]), pr_replay(p, {"kind": "rescaled_corner_out_of_range", "force": True}), key={"kind": "rescaled_corner_out_of_range"})
+                         % (X, p["anchor"], p["sides"]), pr_replay(p, {"kind": "rescaled_corner_out_of_range", "force": True}), key={"kind": "rescaled_corner_out_of_range", "input": "two_generators_small_offset_box"})
     # (2) OldVoronoiGrid segfault on a tight cluster
     if probe_enabled("old_crash_cluster"):
         p = dict(OLD_CRASH_INPUT, qs=[], cls="probe", box="unit", label="old_crash")
@@ -1529,7 +1533,7 @@ def run_probes(ck, impl, model, cov):
         pr_done["old_crash"] = X
         if X:
             ck.violation("OldVoronoiGrid dies (%s) on 6 generators 1.6e-5..5e-5 apart in the unit box (separations comparable to its absolute tolerance sqrt(2e-10 |sides|^2))" % X,
-                         pr_replay(p, {"kind": "old_crash_cluster"}), key={"kind": "old_crash_cluster"})
+                         pr_replay(p, {"kind": "old_crash_cluster"}), key={"kind": "old_crash_cluster", "input": "six_generators_1.6e-5_apart_unit_box"})
     # (3) NewVoronoiGrid volumes on (nearly) degenerate input: Voronoi vertices are circumcentres of sliver tetrahedra computed in binary64
     if probe_enabled("new_volume_near_degenerate"):
         rr = vf.SplitMix64(12345)
@@ -1552,7 +1556,7 @@ def run_probes(ck, impl, model, cov):
                 if abs(tot / vb - 1.0) > 1e-9:
                     ck.violation("NewVoronoiGrid: the cell volumes of %s sum to %.9g times the box volume (relative error %.3g): Voronoi vertices are circumcentres "
                                  "of sliver tetrahedra computed in binary64 from the real positions (NewVoronoiTetrahedron::get_midpoint_circumsphere), the error grows like u/|det|"
-                                 % (name, tot / vb, tot / vb - 1.0), pr_replay(p, {"kind": "new_volume_near_degenerate"}), key={"kind": "new_volume_near_degenerate"})
+                                 % (name, tot / vb, tot / vb - 1.0), pr_replay(p, {"kind": "new_volume_near_degenerate"}), key={"kind": "new_volume_near_degenerate", "input": p.get("label") or name[:40]})
     cov["probes"] = pr_done
 
 
